@@ -23,7 +23,8 @@ CONSTANTS K,        \* refinement depth bound
           RootNames,
           FromMax,  \* start from the maximal instance (recursion budget 2) instead of the minimal one
           KU,       \* unknown keys below union positions are added to states of depth < KU
-          KV        \* variants (deviations, dropped specials, unknown keys) are taken from states of depth < KV (0 = none)
+          KV,       \* variants (deviations, dropped specials, unknown keys) are taken from states of depth < KV (0 = none)
+          KL        \* long-array variants are taken from states of depth < KL (0 = none)
 
 Root(kind, name) == [kind |-> kind, name |-> name]
 RootSeq ==
@@ -72,9 +73,14 @@ BaseAlpha(b) == CASE b \in StringBases -> [i \in DOMAIN StrAlpha |-> JStr(StrAlp
                   [] b = "boolean" -> BoolAlpha
                   [] b = "null" -> <<JNull>>
 
+\* spelling variants the harness derives from the model by string operations TLA+ lacks (see codec_check.alias_table):
+\* property name -> near-miss keys, and "@enum:<name>" -> custom values that differ from a declared one only in letter case
+Alias == IF "ALIAS_TABLE" \in DOMAIN IOEnv THEN JsonDeserialize(IOEnv.ALIAS_TABLE) ELSE [n \in {} |-> <<>>]
+SeqSetA(q) == {q[i] : i \in DOMAIN q}
+EnumNear(e) == IF ("@enum:" \o e) \in DOMAIN Alias THEN SeqSetA(Alias["@enum:" \o e]) ELSE {}
 EnumNode(e, val) == IF EnumBase(e) = "string" THEN JStr(val) ELSE JInt(val)
 \* custom values of an open enumeration: an ordinary one and a falsy one (when not declared)
-CustomVals(e) == (IF EnumBase(e) = "string" THEN {CustomStr, ""} ELSE {CustomInt, 0}) \ EnumVals(e)
+CustomVals(e) == (IF EnumBase(e) = "string" THEN {CustomStr, ""} \cup EnumNear(e) ELSE {CustomInt, 0}) \ EnumVals(e)
 EnumAlpha(e) == {OEnum(e, EnumNode(e, val)) : val \in EnumVals(e)}
                 \cup (IF PyOpen(e) THEN {OEnum(e, EnumNode(e, val)) : val \in CustomVals(e)} ELSE {})
 
@@ -140,9 +146,17 @@ MaxV(t, fuel) ==
                                ELSE (IF fuel = 0 THEN MinInst(ClsLitOf(t)) ELSE MaxInst(ClsLitOf(t), fuel - 1))
       [] OTHER -> MinV(t)
 
+\* a union with a plain-string alternative next to structure alternatives: the string may well SPELL a property name of
+\* one of those structures (a hook that tests `"key" in value` must not take the string for an object)
+KeyStrings(t) ==
+    LET alts == AltTypes(t)
+        structs == {i \in DOMAIN alts : alts[i].kind = "reference" /\ alts[i].name \in SName}
+    IN IF \E i \in DOMAIN alts : alts[i].kind = "base" /\ alts[i].name = "string"
+       THEN UNION {{JStr(FlatM[alts[i].name][k].name) : k \in DOMAIN FlatM[alts[i].name]} : i \in structs}
+       ELSE {}
 \* the minimal object of every alternative (unions and aliases of unions flattened)
 RECURSIVE AltMins(_)
-AltMins(t) == CASE t.kind = "or" -> UNION {AltMins(t.items[i]) : i \in DOMAIN t.items}
+AltMins(t) == CASE t.kind = "or" -> UNION {AltMins(t.items[i]) : i \in DOMAIN t.items} \cup KeyStrings(t)
                 [] t.kind = "reference" /\ t.name \in AName /\ t.name # "LSPAny" -> AltMins(ADef[t.name].type)
                 [] t.kind = "reference" /\ t.name \in EName -> EnumAlpha(t.name)   \* every declared value at every use site (C13)
                 \* a container appears empty or with one element of each alternative
@@ -249,7 +263,6 @@ Unk(ob, j, payload) ==
 \* "near-miss" keys: undeclared keys that are a spelling variant of a declared property of the very
 \* node they are added to (snake_case, lower case, keyword-escaped).  The variants are a string table
 \* computed by the harness from the property names (TLC cannot take strings apart).
-Alias == IF "ALIAS_TABLE" \in DOMAIN IOEnv THEN JsonDeserialize(IOEnv.ALIAS_TABLE) ELSE [n \in {} |-> <<>>]
 AliasKeys(cls) == LET ps == PropsOf(cls)
                       declared == {ps[i].name : i \in DOMAIN ps}
                   IN (UNION {SeqSet(Alias[ps[i].name]) : i \in {i \in DOMAIN ps : ps[i].name \in DOMAIN Alias}}) \ declared
@@ -399,6 +412,28 @@ NestedDeviation ==
     /\ UNCHANGED svObj
     /\ Same
 
+(***************************************************************************)
+(* Size.  Refine never builds an array of more than two elements.  A       *)
+(* `long` variant names an array of the value (by its path) that has at    *)
+(* least two elements whose first and last differ; the harness puts LongPad *)
+(* more copies of the first element in front of it (on the object and on   *)
+(* the wire alike) - the value stays valid, and whatever told the elements *)
+(* apart now sits behind a long uniform prefix.  Judged like a plain value. *)
+(***************************************************************************)
+RECURSIVE LongPaths(_)
+LongPaths(o) ==
+    CASE o.k = "inst" -> UNION { { <<n>> \o q : q \in LongPaths(o.p[n]) } : n \in DOMAIN o.p }
+      [] o.k \in {"arr", "tup"} ->
+            (IF o.k = "arr" /\ Len(o.a) >= 2 /\ ~OEq(o.a[1], o.a[Len(o.a)]) THEN {<<>>} ELSE {})
+            \cup UNION { { <<ToString(i)>> \o q : q \in LongPaths(o.a[i]) } : i \in DOMAIN o.a }
+      [] o.k = "map" -> UNION { { <<key>> \o q : q \in LongPaths(o.f[key]) } : key \in DOMAIN o.f }
+      [] OTHER -> {}
+LongPrefix ==
+    /\ svVar.vk = "none" /\ svDepth < KL
+    /\ \E path \in LongPaths(svObj) : svVar' = [vk |-> "long", name |-> "", path |-> path]
+    /\ UNCHANGED <<svObj, svW>>
+    /\ Same
+
 DropSpecial ==
     /\ CanVary
     /\ \E i \in DOMAIN TopProps(svRoot) : LET p == TopProps(svRoot)[i] IN
@@ -432,7 +467,7 @@ AddNearMissKey ==
     /\ UNCHANGED svObj
     /\ Same
 
-Vary == NestedDeviation \/ AddNearMissKey \/ AddUnknownBelowUnion \/ DropRequired \/ IntValue \/ BadEnumValue \/ OtherLiteral \/ DropSpecial \/ AddUnknown
+Vary == LongPrefix \/ NestedDeviation \/ AddNearMissKey \/ AddUnknownBelowUnion \/ DropRequired \/ IntValue \/ BadEnumValue \/ OtherLiteral \/ DropSpecial \/ AddUnknown
 Next == Refine \/ Vary
 Spec == Init /\ [][Next]_vars
 
